@@ -12,7 +12,7 @@ from .data import VOLUME_QUIET, VOLUME_VERBOSE, HERAError, Settings
 from .debugger import debug
 from .loader import load_program_from_file
 from .op import disassemble
-from .utils import Path, format_int, read_file_or_stdin, register_to_index
+from .utils import Path, format_int, read_file_or_stdin, register_to_index, to_u16
 from .vm import VirtualMachine
 
 VERSION = "hera-py 1.0.7 for HERA version 2.4"
@@ -310,12 +310,16 @@ def parse_init_string(initstr: str) -> "Optional[List[Tuple[int, int]]]":
 
         try:
             dest = register_to_index(lhs)
-        except HERAError:
+        except (HERAError, ValueError):
+            return None
+
+        # R0 is hard-wired to zero.
+        if dest == 0:
             return None
 
         try:
-            val = int(rhs, base=0)
-        except ValueError:
+            val = to_u16(int(rhs, base=0))
+        except (HERAError, ValueError):
             return None
 
         ret.append((dest, val))
